@@ -489,6 +489,12 @@ import warnings as _w
 
 @_ctxlib.contextmanager
 def _capture_sym(self):
+    from . import shims
+    if not shims._PATCHED:
+        # unshimmed symbolic run (fault-schedule exploration): the code really warns / prints
+        with _capture_float(self) as box:
+            yield box
+        return
     n0 = len(CTX.events)
     box = dict(warnings=[], prints=[])
     try:
@@ -502,7 +508,7 @@ def _capture_sym(self):
 
 
 @_ctxlib.contextmanager
-def _capture_float(self):
+def _capture_float_impl(self):
     import io
     box = dict(warnings=[], prints=[])
     buf = io.StringIO()
@@ -516,5 +522,6 @@ def _capture_float(self):
                 box["prints"] = [l for l in buf.getvalue().splitlines() if l]
 
 
+_capture_float = _capture_float_impl
 SymH.capture = _capture_sym
 FloatH.capture = _capture_float
